@@ -44,9 +44,6 @@ Definition change_idx (l : list Z) : list Z := neq_idx 0 (combine l (roll l)).
 Definition drop_wrap (T : Z) (i : list Z) : list Z :=
   match rev i with x :: r => if x =? T - 1 then rev r else i | [] => i end.
 
-Fixpoint zrange (t : Z) (n : nat) : list Z :=
-  match n with O => [] | S n' => t :: zrange (t + 1) n' end.
-
 (* np.unique of integers known to lie in [0, T): the increasing list of members *)
 Definition unique_below (T : nat) (xs : list Z) : list Z :=
   filter (fun t => existsb (Z.eqb t) xs) (zrange 0 T).
